@@ -168,7 +168,7 @@ def rule_cg_pair(ctx, R):
     if not (adds and tot and pc):
         R.finding(g.fn, "group-counters:not-in-step", "add_pending does not update the PEL, the consumer's pending_count and total_pending together", g.loc())
     a = ctx.prog.need(CG + "acknowledge")
-    rem = [i for i, t in a.calls() if callee(t) == PEL + "remove_entry"]
+    rem = [i for _, i, t in shared.deep_calls(ctx, a) if callee(t) == PEL + "remove_entry"]
     tot = total_updates(a); pc = pending_count_updates(a)
     R.inst(a.fn, "group-counters", {"pel_removes": len(rem), "total_pending_updates": len(tot), "consumer_pending_count_updates": len(pc)})
     if not (rem and tot and pc):
@@ -211,7 +211,21 @@ def rule_cg_ack1(ctx, R):
     """the acknowledged counter is incremented only on the Some edge of remove_entry"""
     b = ctx.prog.need(CG + "acknowledge")
     rem = [i for i, t in b.calls() if callee(t) == PEL + "remove_entry"]
-    R.floor("remove_entry_calls", len(rem))
+    # `ids.iter().filter_map(|id| pending.remove_entry(id))`: the removal sits in a closure whose
+    # result is the Option itself, and the adaptor hands only the Some payloads to the loop body
+    lazy = []
+    for i, t in b.calls():
+        if re.search(r"Iterator>::(filter_map|flat_map)::<", t["f"] or "") and t.get("clos"):
+            cb = ctx.prog.bodies.get(t["clos"][-1])
+            if cb is not None:
+                for j, tj in cb.calls():
+                    if callee(tj) == PEL + "remove_entry":
+                        P = prov.origins(cb, 0)
+                        if any(r[0] == "call" and r[2] == j for r in P.roots):
+                            lazy.append(i)
+    R.floor("remove_entry_calls", len(rem) + len(lazy))
+    for i in lazy:
+        R.inst(b.fn, "ack-count", {"removal": "inside filter_map closure returning the Option", "loop_body_sees_only_removed_entries": True})
     incs = []
     for i, bb in enumerate(b.bbs):
         for st in bb["s"]:
